@@ -539,23 +539,66 @@ class Machine:
             if self.choose(2) == 0:
                 return Sym("%s?" % short(inner))
             raise _Return(Sym("residual of %s" % short(inner)))
+        # what earlier arms of THIS match have established about an opaque scrutinee: constructors whose (otherwise irrefutable)
+        # pattern was refused, and the constructor of a pattern that matched but whose guard failed - so that
+        # `Some(d) => .., None if g => .., None => ..` is not walked along the contradictory "not None, then None" path
+        refuted, known = set(), None
         for arm in e["arms"]:
             saved = dict(self.env)
             b = self.bind(arm["pat"], v)
             if b is False:
                 self.env = saved
                 continue
+            cn = self._simple_ctor(arm["pat"]) if b is None and isinstance(v, Sym) else None
+            if cn is not None:
+                if cn in refuted or (known is not None and cn != known):
+                    self.env = saved
+                    continue
+                sibs = self._sibling_ctors(cn)
+                if known == cn or (sibs is not None and all(x in refuted for x in sibs if x != cn)):
+                    b = True
             if not self.decide(b):
+                if cn is not None:
+                    refuted.add(cn)
                 self.env = saved
                 continue
             g = arm.get("guard")
             if g is not None:
                 gv = self.ev(g)
                 if not self.truth(gv):
+                    if cn is not None:
+                        known = cn
                     self.env = saved
                     continue
             return self.ev(arm["body"])
         raise Infeasible()
+
+    def _simple_ctor(self, pat):
+        """name of the constructor if the pattern is `Ctor(irrefutable..)` (through `&` and `name @`), else None"""
+        while pat.get("k") == "pref" or (pat.get("k") == "bind" and pat.get("sub") is not None):
+            pat = pat["pat"] if pat.get("k") == "pref" else pat["sub"]
+        if pat.get("k") not in ("ppath", "pts", "pstruct"):
+            return None
+        subs = list(pat.get("pats") or []) + [f[1] if isinstance(f, list) else f.get("pat") for f in pat.get("fields") or []]
+        if any(self._refutable(p) for p in subs):
+            return None
+        d = hir.res_def({"res": pat.get("res") or {}}) or ""
+        return d or None
+
+    def _sibling_ctors(self, d):
+        """all constructors of the type `d` is a constructor of (Option / Result, or an enum of the crate), else None"""
+        n = hir.last(d)
+        if n in ("Some", "None") and "option" in d.lower():
+            pre = d.rsplit("::", 1)[0]
+            return [pre + "::Some", pre + "::None"]
+        if n in ("Ok", "Err") and "result" in d.lower():
+            pre = d.rsplit("::", 1)[0]
+            return [pre + "::Ok", pre + "::Err"]
+        parent = d.rsplit("::", 1)[0] if "::" in d else ""
+        adt = self.ex.F.adt(parent) if parent else None
+        if adt is not None and adt.get("variants"):
+            return [parent + "::" + x["name"] for x in adt["variants"]]
+        return None
 
     def ev_block(self, e):
         for s in e.get("stmts") or []:
